@@ -121,23 +121,23 @@ theorem loop_correct {β : Type} (C : Ctx D) (QC : QCtx D) (hN : QC.N = C.N) (nm
     (hinj : ∀ i j, nm i = nm j → i = j) (ptr : Bool) (i : String) (steps : List Step) (n : Nat)
     (hi : ∀ j, n ≤ j → i ≠ nm j) (K : CExpr → Option Ty → List Stmt)
     (hwt : wtSteps none steps = true)
-    (P : St D → β → Prop) (g : β → Val D → Except Fault β)
+    (P : St D → β → Prop) (g : β → Val D → Except Fault β) (Q : Val D → Prop)
     (hstable : ∀ (s s' : St D) b, P s b → s'.rows = s.rows →
         (∀ y, y ≠ i → ¬ InRange nm n (chainBody nm ptr (.var i) steps n K).2 y → s'.env y = s.env y) → P s' b)
     (hK : ∀ (s : St D) b b' w (v : Val D), P s b → g b w = .ok b' →
         evalE C.N s.env (stepConds ptr (.var i) none steps).2.1 = .ok w →
         (∀ t, (stepConds ptr (.var i) none steps).2.2 = some t → HasTy w t) →
-        ((stepConds ptr (.var i) none steps).2.2 = none → w = v ∧ MethTyped v (methsSteps steps)) →
+        ((stepConds ptr (.var i) none steps).2.2 = none → w = v ∧ Q v) →
         ∃ s', execs C (K (stepConds ptr (.var i) none steps).2.1 (stepConds ptr (.var i) none steps).2.2) s = .ok s' ∧ P s' b') :
     ∀ (l ws : List (Val D)) (s : St D) (b b' : β),
-      (∀ v ∈ l, MethTyped v (methsSteps steps)) →
+      (∀ v ∈ l, MethTyped v (methsSteps steps)) → (∀ v ∈ l, Q v) →
       elemsSem QC steps l = .ok ws → foldG g ws b = .ok b' → P s b →
       ∃ s', iter (fun s v => execs C (chainBody nm ptr (.var i) steps n K).1 { s with env := s.env.set i v }) l s = .ok s' ∧ P s' b'
-  | [], ws, s, b, b', _, he, hf, hP => by
+  | [], ws, s, b, b', _, _, he, hf, hP => by
     simp only [elemsSem, Except.ok.injEq] at he; subst he
     simp only [foldG, Except.ok.injEq] at hf; subst hf
     exact ⟨s, rfl, hP⟩
-  | v :: vs, ws, s, b, b', hmt, he, hf, hP => by
+  | v :: vs, ws, s, b, b', hmt, hQ, he, hf, hP => by
     simp only [elemsSem] at he
     cases ho : elemSem QC steps v with
     | error e => rw [ho] at he; simp at he
@@ -158,8 +158,8 @@ theorem loop_correct {β : Type} (C : Ctx D) (QC : QCtx D) (hN : QC.N = C.N) (nm
         cases o with
         | none =>
           simp only [Option.toList, foldG] at hf
-          obtain ⟨s', hit, hP'⟩ := loop_correct C QC hN nm hinj ptr i steps n hi K hwt P g hstable hK vs rs s1 b b'
-            (fun u hu => hmt u (by simp [hu])) hr hf hP1
+          obtain ⟨s', hit, hP'⟩ := loop_correct C QC hN nm hinj ptr i steps n hi K hwt P g Q hstable hK vs rs s1 b b'
+            (fun u hu => hmt u (by simp [hu])) (fun u hu => hQ u (by simp [hu])) hr hf hP1
           refine ⟨s', ?_, hP'⟩
           simp only [iter]
           rw [show ({ s with env := s.env.set i v } : St D) = s0 from rfl, hnone rfl]
@@ -172,9 +172,9 @@ theorem loop_correct {β : Type} (C : Ctx D) (QC : QCtx D) (hN : QC.N = C.N) (nm
             rw [hg] at hf
             simp only [foldG] at hf
             obtain ⟨hex, hev, hty, hobj⟩ := hsome w rfl
-            obtain ⟨s2, hK2, hP2⟩ := hK s1 b b1 w v hP1 hg hev hty (fun h => ⟨hobj h, hmt v (by simp)⟩)
-            obtain ⟨s', hit, hP'⟩ := loop_correct C QC hN nm hinj ptr i steps n hi K hwt P g hstable hK vs rs s2 b1 b'
-              (fun u hu => hmt u (by simp [hu])) hr hf hP2
+            obtain ⟨s2, hK2, hP2⟩ := hK s1 b b1 w v hP1 hg hev hty (fun h => ⟨hobj h, hQ v (by simp)⟩)
+            obtain ⟨s', hit, hP'⟩ := loop_correct C QC hN nm hinj ptr i steps n hi K hwt P g Q hstable hK vs rs s2 b1 b'
+              (fun u hu => hmt u (by simp [hu])) (fun u hu => hQ u (by simp [hu])) hr hf hP2
             refine ⟨s', ?_, hP'⟩
             simp only [iter]
             rw [show ({ s with env := s.env.set i v } : St D) = s0 from rfl, hex, hK2]
@@ -209,13 +209,13 @@ theorem compChain_correct {β : Type} (C : Ctx D) (QC : QCtx D) (hN : QC.N = C.N
     (cty : String) (l ws : List (Val D))
     (hcoll : B.collType c.coll = some cty) (hfind : C.ev.find c.bank = some (cty, .vec l))
     (hwt : wtSteps none c.steps = true) (hmt : ∀ v ∈ l, MethTyped v (methsSteps c.steps))
-    (P : St D → β → Prop) (g : β → Val D → Except Fault β)
+    (P : St D → β → Prop) (g : β → Val D → Except Fault β) (Q : Val D → Prop) (hQ : ∀ v ∈ l, Q v)
     (hstable : ∀ (s s' : St D) b, P s b → s'.rows = s.rows →
         (∀ y, ¬ Touch nm n (compChain B nm c n K).next y → s'.env y = s.env y) → P s' b)
     (hK : ∀ (s : St D) b b' w (v : Val D), P s b → g b w = .ok b' →
         evalE C.N s.env (stepConds B.elemPtr (.var (nm (n + 1))) none c.steps).2.1 = .ok w →
         (∀ t, (stepConds B.elemPtr (.var (nm (n + 1))) none c.steps).2.2 = some t → HasTy w t) →
-        ((stepConds B.elemPtr (.var (nm (n + 1))) none c.steps).2.2 = none → w = v ∧ MethTyped v (methsSteps c.steps)) →
+        ((stepConds B.elemPtr (.var (nm (n + 1))) none c.steps).2.2 = none → w = v ∧ Q v) →
         ∃ s', execs C (K (stepConds B.elemPtr (.var (nm (n + 1))) none c.steps).2.1
                           (stepConds B.elemPtr (.var (nm (n + 1))) none c.steps).2.2) s = .ok s' ∧ P s' b')
     (s : St D) (b b' : β) (hx : (s.env (nm n)).isSome = true)
@@ -256,12 +256,12 @@ theorem compChain_correct {β : Type} (C : Ctx D) (QC : QCtx D) (hN : QC.N = C.N
     simp [evalE, σ2, Env.set]
   -- the loop
   have hi : ∀ j, n + 3 ≤ j → nm (n + 1) ≠ nm j := fun j hj e => by have := hinj _ _ e; omega
-  obtain ⟨s', hit, hP'⟩ := loop_correct C QC hN nm hinj B.elemPtr (nm (n + 1)) c.steps (n + 3) hi K hwt P g
+  obtain ⟨s', hit, hP'⟩ := loop_correct C QC hN nm hinj B.elemPtr (nm (n + 1)) c.steps (n + 3) hi K hwt P g Q
     (fun t t' b0 hPt hr hfr => hstable t t' b0 hPt hr (fun y hy => by
       apply hfr y
       · intro e; exact hy (Or.inl ⟨n + 1, by omega, by omega, e⟩)
       · rintro ⟨j, hj1, hj2, hj3⟩; exact hy (Or.inl ⟨j, by omega, by rw [hnext']; exact hj2, hj3⟩)))
-    hK l ws ⟨σ2, s.rows⟩ b b' hmt hel hfold hP2
+    hK l ws ⟨σ2, s.rows⟩ b b' hmt hQ hel hfold hP2
   refine ⟨s', ?_, hP'⟩
   simp only [compChain, hcoll, Option.getD_some, execs]
   rw [hblock]
